@@ -345,6 +345,7 @@ func runC20(r *Result, m *Model, calls []bCall) {
 	}
 	var mo struct {
 		Rets []any `json:"rets"`
+		Ref  []any `json:"ref"`
 	}
 	cmd := map[string]any{"cmd": "build", "calls": calls}
 	if err := m.Ask(cmd, &mo); err != nil {
@@ -397,6 +398,16 @@ func runC20(r *Result, m *Model, calls []bCall) {
 	if !canonEq(obs.Plans, wantPlans) || !canonEq(atEmit, wantPlans) {
 		r.finding(Finding{Kind: "monitor", Clause: "C20.plan", Features: map[string]any{"changedAfterEmit": canonEq(atEmit, wantPlans)},
 			Text: "an emitted plan differs from the plan the call history describes (Model/Builder)", Case: calls, Observed: obs.Plans, Model: wantPlans})
+	}
+	// the bottom-up reference (Model/BuilderRef, "directly constructing the same hierarchy"): one plan per successful Plan()
+	if mo.Ref == nil {
+		mo.Ref = []any{}
+	}
+	if !canonEq(atEmit, mo.Ref) {
+		r.finding(Finding{Kind: "monitor", Clause: "C20.reference", Features: map[string]any{"emitted": len(atEmit), "reference": len(mo.Ref)},
+			Text: "an emitted plan differs from what constructing the same hierarchy bottom-up yields (Model/BuilderRef)", Case: calls, Observed: atEmit, Model: mo.Ref})
+	} else if len(atEmit) > 0 {
+		r.count("emitted plans equal to the bottom-up reference")
 	}
 	for _, x := range obs.Rets {
 		if x == "panic" {
